@@ -607,3 +607,4 @@ PROPS["C09"]._v = PROPS["C09"]._v + [V_LEXSKIP]
 # C15 "indexing, range-indexing ... work on bytes" / "Unicode-safe": the string range read (V) and the scanner's byte index (K)
 PROPS["C15"]._v = PROPS["C15"]._v + [V_RANGEREAD]
 PROPS["C15"]._k = PROPS["C15"]._k + [props_lexer.C18_UNITS[1]] + props_lexer.C03_SCANNER_UNITS
+PROPS["C09"]._v = PROPS["C09"]._v + [V_STRLIT]       # `\xHH` denotes the character with that code (escape decoding)
